@@ -201,6 +201,7 @@ fn deep_program(shape: &str, d: usize) -> (String, f64) {
         "blocks" => (format!("let keep = 7; let q = 0; {} q = 1; {} keep * 10 + q", "{".repeat(d), "}".repeat(d)), 71.0),
         "function_declarations" => (format!("let keep = 7; {} {} keep * 10 + 1", (0..d).map(|i| format!("function f{}() {{", i)).collect::<String>(), "}".repeat(d)), 71.0),
         "unary_chain" => (format!("let keep = 7; let x = {}1; keep * 10 + x", "- ".repeat(d - d % 2)), 71.0),
+        "binary_left_chain" => (format!("let keep = 7; let x = 1{}; keep * 10 + x - {}", " + 1".repeat(d), d), 71.0),
         "member_chain" => (format!("let keep = 7; let o: any = {{}}; o.p = o; let x = o{}; keep * 10 + (x === o ? 1 : 0)", ".p".repeat(d)), 71.0),
         _ => (String::from("1"), 1.0),
     }
@@ -222,8 +223,9 @@ fn verif_side_c10_deep_child() {
 fn deep_nesting_cases(fail: &mut dyn FnMut(String)) -> usize {
     let exe = match std::env::current_exe() { Ok(e) => e, Err(_) => return 0 };
     let mut cases = 0;
-    for shape in ["parentheses", "array_literals", "blocks", "function_declarations", "unary_chain", "member_chain"] {
-        for d in [50usize, 1000, 20000] {
+    for shape in ["parentheses", "array_literals", "blocks", "function_declarations", "unary_chain", "binary_left_chain", "member_chain"] {
+        let depths: [usize; 3] = if shape == "binary_left_chain" || shape == "member_chain" { [50, 20000, 200000] } else { [50, 1000, 20000] };
+        for d in depths {
             cases += 1;
             let out = std::process::Command::new(&exe)
                 .args(["verif_side_c10_deep_child", "--ignored", "--nocapture", "--test-threads", "1"])
